@@ -5,6 +5,7 @@ from sqlparse import sql
 from vf.ch.lib import conc
 
 PART = -1
+PARTK = -1
 CONDS = ['x = 1', 'x = 1 and y = 2', 'x in (select y from u where z = 1 group by y)', 'a between 1 and 2', 'exists (select 1 from u where u.k = t.k)',
          "n like 'a%' or m is null"]
 FOLLOW = ['', 'group by a', 'order by a', 'limit 1', 'union select c from d where z = 3', 'except select 1', 'having a > 1', 'returning a', 'into t2',
@@ -155,16 +156,37 @@ def misc_why(kind, i, j, k):
             else:
                 exp.append((a[:-5], 'then ' + b))
         return None if got == exp else f'{text!r}: get_cases {got} != {exp}'
+    if kind == 4:       # comparisons nested in a subquery that is itself an operand of a comparison / operation
+        l, op = LEFT[i % 3], OPS[j % len(OPS)]
+        il, iop, ir = LEFT[(i // 3) % len(LEFT)], OPS[(j + i) % 5], RIGHT[(i + k) % len(RIGHT)]
+        sub = f'(select max(d) from e where {il} {iop} {ir})'
+        form = k % 5
+        if form == 0:
+            a, b = l, sub
+        elif form == 1:
+            a, b = sub, l
+        elif form == 2:
+            a, b = l, 'd + ' + sub
+        elif form == 3:
+            a, b = sub, sub
+        else:
+            a, b = l, f'(select 1 from g where h {iop} {sub})'
+        text = f'select 1 from t where {a} {op} {b}'
+        st = sqlparse.parse(text)
+        got = sorted((str(c.left), str(c.right)) for c in nodes(st, sql.Comparison))
+        exp = [(a, b)] + [(il, ir)] * (2 if form == 3 else 1) + ([('h', sub)] if form == 4 else [])
+        return None if got == sorted(exp) else f'{text!r}: Comparison operands {got} != written {sorted(exp)}'
     return None
 
 
 def misc(kind: int, i: int, j: int, k: int) -> int:
     """
-    pre: 0 <= kind < 4 and 0 <= i < 15 and 0 <= j < 7 and 0 <= k < 5
+    pre: 0 <= kind < 5 and 0 <= i < 15 and 0 <= j < 7 and 0 <= k < 5
     pre: PART < 0 or kind == PART
+    pre: PARTK < 0 or k == PARTK
     post: _ != 2
     """
-    kind, i, j, k = conc(kind, 3), conc(i, 14), conc(j, 6), conc(k, 4)
+    kind, i, j, k = conc(kind, 4), conc(i, 14), conc(j, 6), conc(k, 4)
     if kind == 0 and (i >= len(ARGS) or j or k):
         return 0
     if kind == 1 and i >= len(LEFT):
